@@ -88,7 +88,7 @@ def outcomeJ {α : Type} (f : α → J) : Outcome α → J
 T ::= {"t":"leaf","v":json} | {"t":"arr","xs":[E…]} | {"t":"obj","ms":[M…],"decoys":[dg…]?,"nosd":bool?}
 E ::= {"m":"c","x":T} | {"m":"m", MARK, "x":T} | {"m":"d","dg":digest}
 M ::= {"k":name,"m":"c","x":T} | {"k":name,"m":"m", MARK, "x":T}
-MARK ::= "disc": <disclosure string as issued>          (digest := H(disc))
+MARK ::= "id": n, "disc": <disclosure string as issued>          (digest := H(disc))
        | "salt": s, "fmt": 0|1|2                         (disc := b64(print [s,name?,payload x]))
 ```
 An object's `_sd` is: digests of its marked members (in member order) ++ decoys, rotated by
@@ -120,8 +120,7 @@ partial def toMJ (alg : String) (t : J) : StateM TreeOut MJ := do
           let rest ← goE r
           return .decoy (jstr e "dg") rest
         | "m" =>
-          let id := (← get).next
-          modify fun s => { s with next := s.next + 1 }
+          let id := jnat e "id"
           let x ← toMJ alg ((jget e "x").getD .null)
           let (dstr, dg) := mark none x e
           modify fun s => { s with discs := s.discs.push ⟨dg, dstr, none, x.payload, id⟩ }
@@ -141,8 +140,7 @@ partial def toMJ (alg : String) (t : J) : StateM TreeOut MJ := do
       | (k, m) :: r => do
         match jstr m "m" with
         | "m" =>
-          let id := (← get).next
-          modify fun s => { s with next := s.next + 1 }
+          let id := jnat m "id"
           let x ← toMJ alg ((jget m "x").getD .null)
           let (dstr, dg) := mark (some k) x m
           modify fun s => { s with discs := s.discs.push ⟨dg, dstr, some k, x.payload, id⟩ }
@@ -153,7 +151,11 @@ partial def toMJ (alg : String) (t : J) : StateM TreeOut MJ := do
           let rest ← goM r
           return .clear k x rest
     let mm ← goM sorted
-    let all := mm.marks ++ strs (jarr t "decoys")
+    -- `sd_actual`: the `_sd` content observed in a real payload; what is not a mark is a decoy
+    let decoys := match jget t "sd_actual" with
+      | some (.arr xs) => (strs xs).filter (fun g => !(mm.marks.contains g))
+      | _ => strs (jarr t "decoys")
+    let all := mm.marks ++ decoys
     let rot := jnat t "rot" % (all.length + 1)
     let all := all.drop rot ++ all.take rot
     let sd := if all.isEmpty && !(jbool t "emptysd") then none else some all
